@@ -41,7 +41,7 @@ def rank (s : ExSt) (n : Nat) (i : Nat) (pc : Pc) : Nat :=
   let empt := (s.queues[i]?.getD []).isEmpty
   let heldByOther := match s.qlock[i]? with | some (some h) => h != i | _ => false
   let will := decide (i < effActive s) && empt
-  let huge := 8 * (n + 1) + 60
+  let huge := 9 * (n + 1) + 60
   match pc with
   | .top => (if empt then 14 else if heldByOther then 12 else 5) + (if will then huge else 0)
   | .popped none => 13 + (if will then huge else 0)
